@@ -88,6 +88,10 @@ def run(ctx, pid=PID, families=(("commit", 120, 600), ("retry", 60, 300)), mutan
         run_no = scen[-1]["run"] + 1
     scen += core.directed_scenarios(run_no)
     run_no = scen[-1]["run"] + 1
+    # streams that saw time-outs and then detach / re-charge while acknowledgements are outstanding (every accepted event accounted for)
+    det = core.detach_scenarios(ctx, 24 if thorough else 8, run_no)
+    run_no += len(det)
+    scen += det
     stp = core.stopretry_scenarios(ctx, 12 if thorough else 4, run_no)
     run_no += len(stp)
     scen += stp
